@@ -236,6 +236,7 @@ func (u *udpConnection) start(batchSize int, pool router.PacketPool) {
 	// Receiver task
 	go func() {
 		defer log.HandlePanic()
+		defer router.VerifRecover()
 		router.VerifActor("recv:"+u.name, 0)
 		u.receive(batchSize, pool)
 		close(u.receiverDone)
@@ -244,6 +245,7 @@ func (u *udpConnection) start(batchSize int, pool router.PacketPool) {
 	// Forwarder task
 	go func() {
 		defer log.HandlePanic()
+		defer router.VerifRecover()
 		router.VerifActor("send:"+u.name, 0)
 		u.send(batchSize, pool)
 		close(u.senderDone)
@@ -529,6 +531,7 @@ func (l *connectedLink) start(
 	}
 	go func() {
 		defer log.HandlePanic()
+		defer router.VerifRecover()
 		router.VerifActor("bfd:"+l.name, 0)
 		if err := l.bfdSession.Run(ctx); err != nil && !errors.Is(err, bfd.ErrAlreadyRunning) {
 			log.Error("BFD session failed to start", "remote address", l.name, "err", err)
@@ -700,6 +703,7 @@ func (l *detachedLink) start(
 	}
 	go func() {
 		defer log.HandlePanic()
+		defer router.VerifRecover()
 		router.VerifActor("bfd:"+l.name, 0)
 		if err := l.bfdSession.Run(ctx); err != nil && !errors.Is(err, bfd.ErrAlreadyRunning) {
 			log.Error("BFD session failed to start", "remote address", l.name, "err", err)
@@ -879,6 +883,7 @@ func (l *internalLink) start(
 
 	go func() {
 		defer log.HandlePanic()
+		defer router.VerifRecover()
 		l.runProcessor()
 	}()
 }
